@@ -1276,9 +1276,10 @@ class SymEnv:
     """Ranges of the symbols: 'i' > 0; integer symbols >= 0 (``ints``), optionally n = m + delta with delta fixed 0
     or >= 1 expressed by substituting before deciding; fraction symbols in [0, 1)."""
 
-    def __init__(self, ints=(), fracs=(), subst=None):
+    def __init__(self, ints=(), fracs=(), subst=None, pfracs=()):
         self.ints = set(ints)
-        self.fracs = set(fracs)
+        self.pfracs = set(pfracs)              # fractions in the open interval (0, 1)
+        self.fracs = set(fracs) | self.pfracs  # fractions in [0, 1)
         self.subst = subst or {}     # int symbol -> {symbol: coef, 1: const}  (e.g. n -> m + 1 + d)
 
 
@@ -1373,22 +1374,50 @@ class Lin:
     def __rmod__(self, o):
         raise EvalUnsupported("modulo by a symbolic value")
 
-    def trunc(self):
-        """int(x) for a pure value  integer-part + rho."""
+    def _int_frac(self):
+        """(integer part as Lin, fraction symbol or None, its coefficient +1/-1) of a pure value, else EvalUnsupported."""
         if self.time or self.s != 0:
-            raise EvalUnsupported("int() of a time")
+            raise EvalUnsupported("rounding of a time")
         ints = {k: v for k, v in self.pure.items() if k == 1 or k in self.env.ints}
         fr = {k: v for k, v in self.pure.items() if k in self.env.fracs}
-        if any(v.denominator != 1 for v in ints.values()):
-            raise EvalUnsupported("int() of a non-integral form")
-        ip = Lin(self.env, ints)
+        if any(v.denominator != 1 for v in ints.values()) or set(self.pure) - set(ints) - set(fr):
+            raise EvalUnsupported("rounding of a non-integral form")
         if not fr:
+            return Lin(self.env, ints), None, 0
+        if len(fr) == 1 and abs(list(fr.values())[0]) == 1:
+            k = list(fr)[0]
+            return Lin(self.env, ints), k, int(fr[k])
+        raise EvalUnsupported("rounding with several fractional parts")
+
+    def floor(self):
+        """math.floor(x) / x // 1 for a pure value."""
+        ip, k, c = self._int_frac()
+        if k is None or c == 1:
+            return ip                      # ip + rho, 0 <= rho < 1
+        if k in self.env.pfracs:
+            return ip - 1                  # ip - rho, 0 < rho < 1
+        raise EvalUnsupported("floor of ip - rho with rho possibly 0")
+
+    def trunc(self):
+        """int(x) (truncation toward zero) for a pure value."""
+        ip, k, c = self._int_frac()
+        if k is None:
             return ip
-        if len(fr) == 1 and list(fr.values())[0] == 1:
-            lo, _, _ = ip._bounds()
+        lo, hi, _ = ip._bounds()
+        if c == 1:
             if lo is not None and lo >= 0:
-                return ip   # truncation == floor for non-negative values
-        raise EvalUnsupported("int() of a possibly negative non-integer")
+                return ip                  # non-negative: truncation == floor
+            if hi is not None and hi <= -1 and k in self.env.pfracs:
+                return ip + 1              # ip + rho with ip <= -1, 0 < rho < 1: toward zero
+        else:
+            if hi is not None and hi <= 0:
+                return ip                  # -(|ip| + rho): toward zero drops rho
+            if lo is not None and lo >= 1 and k in self.env.pfracs:
+                return ip - 1
+        raise EvalUnsupported("int() of a value whose sign is not decided")
+
+    def __floordiv__(self, o):
+        return (self / o).floor()
 
     # -- deciding signs
     def _bounds(self):
@@ -1414,13 +1443,17 @@ class Lin:
         for k, c in form.items():
             if c == 0:
                 continue
-            if k in self.env.fracs:       # [0, 1)
+            if k in self.env.fracs:       # [0, 1)  (or (0, 1) for pfracs)
                 if c > 0:
                     hi = None if hi is None else hi + c
                     strict_hi = True
+                    if k in self.env.pfracs:
+                        strict_lo = True
                 else:
                     lo = None if lo is None else lo + c
                     strict_lo = True
+                    if k in self.env.pfracs:
+                        strict_hi = True
             else:                          # integer >= 0, unbounded above
                 if c > 0:
                     hi = None
@@ -1522,6 +1555,13 @@ class SymInterp(Interp):
         return super().expr(e, env)
 
     def call(self, e, env):
+        if dotted(e.func) in ("math.floor", "floor", "math.trunc", "trunc") and len(e.args) == 1 and not e.keywords:
+            v = self.expr(e.args[0], env)
+            if isinstance(v, Lin):
+                return v.floor() if "floor" in dotted(e.func) else v.trunc()
+            if isinstance(v, (int, float)) and not isinstance(v, bool):
+                return math.floor(v) if "floor" in dotted(e.func) else math.trunc(v)
+            raise EvalUnsupported("rounding of a non-number")
         if dotted(e.func) == "int" and len(e.args) == 1 and not e.keywords:
             try:
                 bound = self.lookup("int", env)
